@@ -281,8 +281,20 @@ def analyse_program_goals(text, goals, N, seed=0, settings=None, force_cyclic=Fa
                 sample_vals = {"program": text, "goal": goal, "model_E_n": info["expected"],
                                "polar": str(sol)[:300], "N": info["N"]}
             if mism:
-                res["violations"].append({"sub": "E(%s)" % goal,
-                                          "detail": {"mismatches": mism[:6], "polar": str(sol)[:500],
+                sub = "E(%s)" % goal
+                # recorded call-site finding: a condition replaced by an independent coin while its variables stay program
+                # variables - only goals that mention a variable of such a condition are attributed to it
+                try:
+                    store = getattr(program, "abstracted_const_store", {}) or {}
+                    abs_vars = set()
+                    for cond in store.values():
+                        abs_vars |= {str(sy) for sy in cond.get_free_symbols()}
+                    if abs_vars & set(parse_poly(goal).variables()):
+                        sub = "abstraction-joint-law"
+                except Exception:
+                    pass
+                res["violations"].append({"sub": sub,
+                                          "detail": {"mismatches": mism[:6], "polar": str(sol)[:500], "goal": goal,
                                                      "is_exact": bool(exact), "program": text}})
         stats["states"] = model.states_seen
         stats["transitions"] = model.transitions
